@@ -30,7 +30,8 @@ func load(repo string) (*pkgFiles, error) {
 	pf := &pkgFiles{fset: fset, files: map[string]*ast.File{}}
 	for _, e := range ents {
 		n := e.Name()
-		if !strings.HasSuffix(n, ".go") || strings.HasSuffix(n, "_test.go") || n == "verif_hooks.go" {
+		// the hook files (build tag verif, recorded in MANIFEST.hooks) are not part of the library under verification
+		if !strings.HasSuffix(n, ".go") || strings.HasSuffix(n, "_test.go") || strings.HasPrefix(n, "verif_") {
 			continue
 		}
 		f, err := parser.ParseFile(fset, filepath.Join(repo, n), nil, parser.ParseComments)
